@@ -1,13 +1,17 @@
-// Package checks links every finished property check into the vcheck binary.
-// (Checks under construction are built through cmd/dev/cNN only.)
+// Package checks links every property check into the vcheck binary.
 package checks
 
 import (
 	_ "verif/checks/c01"
 	_ "verif/checks/c02"
 	_ "verif/checks/c03"
+	_ "verif/checks/c04"
+	_ "verif/checks/c05"
 	_ "verif/checks/c06"
+	_ "verif/checks/c07"
+	_ "verif/checks/c08"
 	_ "verif/checks/c09"
+	_ "verif/checks/c10"
 	_ "verif/checks/c11"
 	_ "verif/checks/c12"
 	_ "verif/checks/c13"
